@@ -728,6 +728,12 @@ def match_model(ctx, pattern, s, label):
         if g is not None:
             groups[g] = piece
             ctx.ghost.setdefault("atoms", {})[piece.get_id()] = run
+        if not z3.is_string_value(piece) and not any(a[0].neg for a in run):
+            # consequences of the membership, computed on the concrete classes (the solvers do not find them by themselves): the piece holds none of
+            # the pattern's literal characters that its classes do not admit
+            admits = set().union(*[a[0].chars for a in run])
+            for sep in sorted({next(iter(a[0].chars)) for a in atoms if a[1] == a[2] == 1 and not a[0].neg and len(a[0].chars) == 1} - admits):
+                ctx.assume(z3.Not(z3.Contains(piece, z3.StringVal(sep))))
         pieces.append(piece)
         i = j
     matched = z3.Concat(*pieces) if len(pieces) > 1 else (pieces[0] if pieces else z3.StringVal(""))
@@ -1164,10 +1170,11 @@ def td_raises(ctx, st, exc):
     if kind == "not a string":
         ctx.oblige("raises", f"a-non-string-is-rejected-with-ValueError(got {exc.cls})" + tag, exc.cls == "ValueError")
         return
+    if kind != "any string":
+        _td_cut(ctx, d, tag)
     ctx.oblige("raises", f"text-that-is-not-a-duration-is-rejected-with-ValueError,never-another-exception-class(got {exc.cls}@{exc.origin})" + tag, ctx.classes.is_subclass(exc.cls, "ValueError"),
                watch={"value": d["value"]})
     if kind != "any string":
-        _td_cut(ctx, d, tag)
         ctx.oblige("raises", f"str(timedelta)-of-a-duration-is-never-rejected(got {exc.cls}@{exc.origin})" + tag, False)
 
 
